@@ -50,6 +50,9 @@ type Item struct {
 	// ASCIIStrings: strings.ToLower / strings.EqualFold translate as their ASCII restrictions
 	// (exact only when every octet of the input is below 128 — state that where you use it).
 	ASCIIStrings bool `json:"ascii_strings"`
+	// JoinIfs: if statements that always fall through are translated with a join point instead of
+	// copying the continuation into both branches (linear instead of exponential output).
+	JoinIfs bool `json:"join_ifs"`
 }
 
 type Spec struct {
